@@ -89,6 +89,7 @@ def symbolic_for(ex, node, it, st: State):
 
 
 def _symbolic_for_inner(ex, node, it, st, ctx, lo, hi, elem, lo_t, hi_t, v, dry, rng, nobl, names_seen_before):
+    ctx.fresh_in_dry_run = False
     ex.assign_target(node.target, elem(v) if elem else v, dry)
     tvars = set(dry.log.var_writes)
     dry.log.var_writes = set()
@@ -108,6 +109,8 @@ def _symbolic_for_inner(ex, node, it, st, ctx, lo, hi, elem, lo_t, hi_t, v, dry,
         outs = outs2
     summary_ok = simple
     reason = "" if simple else f"body outcomes {kinds}"
+    if summary_ok and getattr(ctx, "fresh_in_dry_run", False):
+        summary_ok, reason = False, "fresh (callee-result / library) symbols created in the loop body"
     end = outs[0].state if simple else None
     written_cids = []
     for cid, _ in log.writes:
